@@ -396,6 +396,7 @@ structure RouterQuery where
   d : Pos
   route : Route
   nodePath : List Nat
+  routePath : List Nat := []
   pot : List (Nat × Rat)
   slack : Rat
   searched : Bool
@@ -436,6 +437,11 @@ def handleRouter (j : Json) : Except String Json := do
         if !(Router.certPath net pot src.v dst.u qy.nodePath qy.slack) then
           let t := Router.walkTime net qy.nodePath
           mon := mon ++ [s!"C14/not-fastest| {qy.kind} query: the junction path {qy.nodePath} from {src.v} to {dst.u} takes {repr t} s, the fastest walk takes {repr (pot dst.u)} s"]
+        -- the junction path of the route that was actually returned (it is what vehicles drive)
+        if !qy.routePath.isEmpty && qy.routePath != qy.nodePath then
+          if !(Router.certPath net pot src.v dst.u qy.routePath qy.slack) then
+            let t := Router.walkTime net qy.routePath
+            mon := mon ++ [s!"C14/not-fastest| {qy.kind} query: the returned route runs over the junctions {qy.routePath} ({repr t} s), not over the path the search returned ({qy.nodePath}); the fastest walk from {src.v} to {dst.u} takes {repr (pot dst.u)} s"]
       | _, _ => mon := mon ++ [s!"C13/route-shape| query names a link that is not in the network"]
   -- the link table vehicles are moved with must say what the searched graph says: a link's length
   -- and speed give the travel time of the edge it was built from (else "fastest" by the graph is
